@@ -28,11 +28,20 @@ def scoreOps (t : List String) : Option String :=
       pure s!"{scoreToImp a b}"
   | ["S.bid", b, x, xx, v, n] => do
       let b ← bidIdx? b; let x ← bool? x; let xx ← bool? xx; let v ← bool? v; let n ← nat? n
-      pure s!"{calcBidScore b x xx v n}"
+      -- model value, then the value of the LAW (Spec/Scoring.lean: formulas, no tables)
+      let st : Dbl := if xx then .xx else if x then .x else .none
+      pure s!"{calcBidScore b x xx v n} {dupScore (bidLevel b) (bidDenom b) st v n}"
   | ["S.contract", b, x, xx, v, d, n] => do
       let b ← bidOpt? b; let x ← bool? x; let xx ← bool? xx; let v ← vul? v
       let d ← seatOpt? d; let n ← nat? n
-      pure (showOptInt (calcScore ⟨b, x, xx, v, d⟩ n))
+      let law : String :=
+        match b, d with
+        | some bb, some dd =>
+          let st : Dbl := if xx then .xx else if x then .x else .none
+          toString (dupScore (bidLevel bb) (bidDenom bb) st (sideVulnerable v dd) n)
+        | none, _ => "0"
+        | some _, none => "-"          -- no declarer: the law needs declarer's side only when one side is vulnerable
+      pure (showOptInt (calcScore ⟨b, x, xx, v, d⟩ n) ++ " " ++ law)
   | _ => none
 
 def step (s : DState) (line : String) : DState × String :=
